@@ -5,6 +5,7 @@ package corekit
 
 import (
 	clienttypes "github.com/cosmos/ibc-go/v11/modules/core/02-client/types"
+	clientv2types "github.com/cosmos/ibc-go/v11/modules/core/02-client/v2/types"
 	conntypes "github.com/cosmos/ibc-go/v11/modules/core/03-connection/types"
 	chantypes "github.com/cosmos/ibc-go/v11/modules/core/04-channel/types"
 	v2 "github.com/cosmos/ibc-go/v11/modules/core/04-channel/v2/types"
@@ -89,6 +90,8 @@ func v2Local(w *models.World) (string, bool, clientv2Counterparty) {
 		verif.Assume(local != models.ClientID && local != "")
 	}
 	cp := w.SymCounterparty("cp", local)
+	// relayer allow-lists are the subject of C46: here the client config is the default (no allow-list)
+	w.IBC.ClientV2Keeper.SetConfig(w.Ctx, local, clientv2types.NewConfig())
 	if viaAlias {
 		w.IBC.ChannelKeeperV2.SetClientForAlias(w.Ctx, local, models.ClientID)
 	} else {
